@@ -72,7 +72,7 @@ class Gen:
         else:
             f = self.newfield(kind)
         r2 = self.rng.random()
-        if kind == "int8":
+        if kind in ("int8", "int8s", "uint8s"):
             r3 = self.rng.random()
             kid = ref("Int") if r3 < 0.6 else (lit("7") if r3 < 0.75 else {"op": "grp", "mode": "once", "kid": {"op": "seq", "kids": [ref("Int"), ref("Int")]}})
         elif r2 < 0.6:
@@ -309,8 +309,17 @@ for a in NUMS:
 
 
 
+CONVU = {}
+for a in NUMS:
+    CONVU[a] = str(int(a)) if int(a) <= 255 else "fail"
+    for b in NUMS:
+        CONVU[a + b] = str(int(a + b)) if int(a + b) <= 255 else "fail"
+        for c in NUMS:
+            CONVU[a + b + c] = "fail"
+
+
 def conv_table():
-    return {"int8": dict(CONV)}
+    return {"int8": dict(CONV), "uint8": dict(CONVU)}
 
 
 def make_grammar(rng, gid, extra_kinds=(), with_pos=False, neglook=True, name_elided=True, ks=(0, 1, 2, -1), ci=None, trailing=None, use_user=False):
